@@ -11,11 +11,13 @@ From Coq Require Import ZArith List Bool.
 From AK Require Export LLP.Build C03.Spec.
 Import ListNotations.
 
-(* outcome of LLParser.__init__ as far as C03 is concerned: the pipeline of
-   LLP/Build.v:build without the FIRST/FOLLOW tables (they cannot fail) *)
-Definition ctor_outcome (ug : list (sym * list (list sym))) (terminals : list sym) (smart : bool) : res unit :=
-  bind (factorize ug terminals smart) (fun '(g, _) =>
-    rec_check g (terminals ++ [END_TOKEN]) (nullables g)).
+(* outcome of LLParser.__init__ as far as C03 is concerned *)
+Definition ctor_outcome (ug : list (sym * list (list sym))) (terminals : list sym) (smart : bool) (start : sym)
+  : res unit :=
+  match build ug terminals smart start with
+  | Ok _ => Ok tt
+  | Err e => Err e
+  end.
 
 (* the hypotheses [part1_ok] of the C03 theorems, evaluated on the factorized
    grammar of the case at hand (true when the factorization itself failed:
@@ -43,7 +45,7 @@ Definition run (c : case) : sx :=
   | Ctors terminals gs =>
       SL (map (fun '(ug, smart, start) =>
                  if hyps_ok ug terminals smart start then
-                   match ctor_outcome ug terminals smart with
+                   match ctor_outcome ug terminals smart start with
                    | Ok _ => SZ 0
                    | Err e => SZ (err_code e)
                    end
